@@ -8,7 +8,7 @@ hist = json.loads((root / "history.json").read_text()) if (root / "history.json"
 rows = []
 for d in sorted(p for p in root.iterdir() if p.is_dir()):
     m = json.loads((d / "meta.json").read_text())
-    rules = {p: v["rules"] for p, v in m.get("checks_reporting", {}).items() if v.get("exit") == 1}
+    rules = {p: v["rules"] for p, v in m.get("reported_now", m.get("checks_reporting", {})).items() if v.get("exit") == 1}
     notes = " ".join(m.get("notes", "").split())[:260]
     h = hist.get(d.name, {})
     rows.append((d.name, m["property"], notes, "; ".join(f"{p}: {', '.join(r)}" for p, r in rules.items()) or "NOT DETECTED",
@@ -17,12 +17,13 @@ out = ["# Seeded breaking changes written by independent sub-agents", "",
        "Each directory holds `patch.diff` (relative to /repo HEAD at the time), `demo.py` (passes on the clean tree,",
        "fails with the patch) and `meta.json` (what was run and what the checks reported). Every change was confirmed",
        "in a scratch worktree (patch applies, package compiles, 719 tests pass, demo fails / passes without it) and",
-       "then applied to /repo itself, all 20 quick checks run, and undone with `git checkout`.", "",
+       "then applied to /repo itself, all 20 quick checks run, and undone with `git checkout`. The column `reported by` is",
+       "what the current rules say (`tools/seed_refresh.py`, scratch copies); `first run` is what they said when the change arrived.", "",
        "| change | property | what it does | reported by (current rules) | first run | strengthening |", "|---|---|---|---|---|---|"]
 for r in rows:
     out.append("| " + " | ".join(x.replace("|", "\\|") for x in r) + " |")
 n = len(rows)
-caught = sum(1 for r in rows if r[3] != "NOT DETECTED")
-out += ["", f"{caught} of {n} changes are reported as VIOLATION by the current rules."]
+caught = sum(1 for r in rows if (r[1] + ":") in r[3])
+out += ["", f"{caught} of {n} changes are reported as VIOLATION by their own property's check with the current rules."]
 (root / "README.md").write_text("\n".join(out) + "\n")
 print(f"{caught}/{n}")
